@@ -159,10 +159,11 @@ Proof.
 Qed.
 
 (* ---- lstat of a rendered path ---- *)
-Lemma resolve_render c f cs fl : Forall nm cs -> cs <> [] ->
+Lemma resolve_render c f cs fl : Forall nm cs -> Forall nonul cs -> cs <> [] ->
   resolve c f (render cs) fl = walk rfuel f (c_root c) (c_root c) cs fl 0.
 Proof.
-  intros H Hne. unfold resolve. unfold render at 1.
+  intros H Hnul Hne. unfold resolve. unfold render at 1.
+  apply has_nul_render in Hnul. fold (render cs). rewrite Hnul. unfold render at 1.
   rewrite ends_with_sep_render by auto. rewrite pcs_render by auto.
   unfold render. cbn [is_abs]. rewrite N.eqb_refl. rewrite orb_false_r.
   destruct (walk rfuel f (c_root c) (c_root c) cs fl 0); reflexivity.
@@ -173,16 +174,29 @@ Local Opaque rfuel.
 Definition lstat_not_link (r : result) : Prop :=
   r = RErr ENOENT \/ exists i n, r = RStat i n /\ forall t, i_kind n <> KLink t.
 
+(* a path with a NUL byte is refused with EINVAL *)
+Lemma lstat_not_link_nonul c f p : lstat_not_link (snd (sys_lstat c f p)) -> has_nul p = false.
+Proof.
+  intros H. destruct (has_nul p) eqn:E; auto. exfalso.
+  unfold sys_lstat, resolve_ino, resolve in H. destruct p as [|a p]; rewrite ?E in H; simpl in H;
+    destruct H as [H|(i & n & H & _)]; discriminate.
+Qed.
+
 Section Root.
   Variables (c : ctx) (f : fs) (rcs : list bytes) (dr : N).
   Hypothesis Hrcs : Forall nm rcs.
+  Hypothesis Hrnul : Forall nonul rcs.
   Hypothesis Hdr : plain_dir f (c_root c) rcs = Some dr.
 
   Lemma lstat_not_link_free a x : Forall nm a -> nm x -> link_free f dr a = true ->
     lstat_not_link (snd (sys_lstat c f (render (rcs ++ a ++ [x])))) ->
-    link_free f dr (a ++ [x]) = true.
+    link_free f dr (a ++ [x]) = true /\ nonul x.
   Proof.
     intros Ha Hx Hlf Hst.
+    assert (Hnul : Forall nonul (rcs ++ a ++ [x])).
+    { apply has_nul_render. eapply lstat_not_link_nonul; eauto. }
+    split; [|apply Forall_app in Hnul; destruct Hnul as [_ Hn]; apply Forall_app in Hn; destruct Hn as [_ Hn];
+             inversion Hn; auto].
     pose proof (link_free_snoc f x a dr Hlf) as Hs.
     assert (Hne : a ++ [x] <> []) by (destruct a; discriminate).
     assert (Hall : Forall nm (rcs ++ a ++ [x])).
@@ -204,7 +218,7 @@ Section Root.
   Qed.
 
   Definition good (st : bytes) : Prop :=
-    exists stk, st = render (rev stk) /\ Forall nm stk /\ link_free f dr (rev stk) = true.
+    exists stk, st = render (rev stk) /\ Forall nm stk /\ Forall nonul stk /\ link_free f dr (rev stk) = true.
 
   Lemma join_root_render l : Forall nm l -> join2 [sep] (render l) = render l.
   Proof. intros H. rewrite join2_root, stk_from_render by auto. rewrite app_nil_r, rev_involutive. reflexivity. Qed.
@@ -217,27 +231,30 @@ Section Root.
 
   (* one walkLink whose argument cleans to the stack [cstep true stk x] *)
   Lemma walk_link_good stk x path nl np b nl' :
-    Forall nm stk -> nosep x -> link_free f dr (rev stk) = true ->
+    Forall nm stk -> Forall nonul stk -> nosep x -> link_free f dr (rev stk) = true ->
     join2 [sep] path = render (rev (cstep true stk x)) ->
     walk_link c f (render rcs) path nl = inl (np, b, nl') ->
     nl <= nl' /\ (nl' = nl -> b = false /\ good np).
   Proof.
-    intros Hstk Hx Hlf Hp H. unfold walk_link in H.
+    intros Hstk Hnul Hx Hlf Hp H. unfold walk_link in H.
     destruct (N.ltb rp_max_links nl); [discriminate|].
     rewrite Hp in H. set (stk1 := cstep true stk x) in *.
     assert (Hstk1 : Forall nm stk1) by (apply cstep_nm; auto).
     assert (Hrev1 : Forall nm (rev stk1)) by (apply Forall_rev; auto).
     destruct (bytes_eqb (render (rev stk1)) [sep]) eqn:Esep.
     - inversion H; subst. split; [lia|]. intros _. split; auto.
-      apply render_eq_sep in Esep; auto. exists stk1. rewrite Esep. repeat split; auto.
+      apply render_eq_sep in Esep; auto. exists stk1. rewrite Esep.
+      assert (stk1 = []) as -> by (destruct stk1; auto; simpl in Esep; destruct (rev stk1); discriminate).
+      repeat split; auto.
     - rewrite join_rcs_render in H by auto.
       assert (Hcase : lstat_not_link (snd (sys_lstat c f (render (rcs ++ rev stk1)))) -> good (render (rev stk1))).
       { intros Hst. exists stk1. split; [reflexivity|]. split; [auto|].
         destruct (cstep_cases stk x Hstk Hx) as [E|[E|[Hnx E]]]; fold stk1 in E.
         - rewrite E. auto.
-        - rewrite E. destruct stk as [|t r]; [reflexivity|]. simpl tl. simpl rev in Hlf.
-          eapply link_free_prefix; eauto.
-        - rewrite E in *. simpl rev in *. apply lstat_not_link_free; auto. apply Forall_rev; auto. }
+        - rewrite E. destruct stk as [|t r]; [split; [constructor|reflexivity]|]. simpl tl. simpl rev in Hlf.
+          inversion Hnul; subst. split; auto. eapply link_free_prefix; eauto.
+        - rewrite E in *. simpl rev in *.
+          destruct (lstat_not_link_free (rev stk) x) as [G1 G2]; auto using Forall_rev. }
       destruct (snd (sys_lstat c f (render (rcs ++ rev stk1)))) as [|e|i n| | |] eqn:El; try discriminate.
       + destruct e; try discriminate. inversion H; subst. split; [lia|]. intros _. split; auto.
         apply Hcase. left. reflexivity.
@@ -257,12 +274,12 @@ Section Root.
     link_step c f (render rcs) st x nl = inl (st', nl') ->
     nl <= nl' /\ (nl' = nl -> good st').
   Proof.
-    intros (stk & -> & Hstk & Hlf) Hx H. unfold link_step in H.
+    intros (stk & -> & Hstk & Hnul & Hlf) Hx H. unfold link_step in H.
     destruct (walk_link c f (render rcs) (join2 (render (rev stk)) x) nl) as [[[np b] nl1]|e] eqn:Ew; [|discriminate].
     assert (Hp : join2 [sep] (join2 (render (rev stk)) x) = render (rev (cstep true stk x))).
     { rewrite join2_render by (apply Forall_rev; auto). rewrite rev_involutive, stk_from_single by auto.
       apply join_root_render. apply Forall_rev. apply cstep_nm; auto. }
-    destruct (walk_link_good stk x _ nl np b nl1 Hstk Hx Hlf Hp Ew) as [Hle Hg].
+    destruct (walk_link_good stk x _ nl np b nl1 Hstk Hnul Hx Hlf Hp Ew) as [Hle Hg].
     destruct b.
     - destruct (is_abs np); inversion H; subst; (split; [auto|]); intros E; destruct (Hg E); discriminate.
     - inversion H; subst. split; auto. intros E. apply Hg; auto.
@@ -313,7 +330,7 @@ Section Root.
         inversion E1; subst.
         assert (Hp : join2 [sep] (c0 :: c1) = render (rev (cstep true [] (c0 :: c1)))).
         { rewrite join2_root, stk_from_single by auto. reflexivity. }
-        destruct (walk_link_good [] (c0 :: c1) _ nl st b nl1 (Forall_nil _) Hc1 eq_refl Hp Ew) as [Hle Hg].
+        destruct (walk_link_good [] (c0 :: c1) _ nl st b nl1 (Forall_nil _) (Forall_nil _) Hc1 eq_refl Hp Ew) as [Hle Hg].
         split; auto. intros E. apply Hg; auto. }
     destruct H1 as [Hle1 Hg1].
     destruct (N.eq_dec nl1 nl) as [E|NE].
@@ -340,7 +357,7 @@ Section Root.
 
   Lemma root_path_loop_good fuel : forall path nl out,
     root_path_loop fuel c f (render rcs) path nl = inl out ->
-    exists cs, out = render (rcs ++ cs) /\ Forall nm cs /\ link_free f dr cs = true.
+    exists cs, out = render (rcs ++ cs) /\ Forall nm cs /\ Forall nonul cs /\ link_free f dr cs = true.
   Proof.
     induction fuel as [|fuel IH]; intros path nl out H; [discriminate|].
     cbn [root_path_loop] in H.
@@ -348,9 +365,9 @@ Section Root.
     destruct (N.eqb nl nl') eqn:En.
     - destruct (bytes_eqb np (join2 [sep] np)) eqn:Eb.
       + apply N.eqb_eq in En. destruct (walk_links_good path nl np nl' Ew) as [_ Hg].
-        destruct (Hg (eq_sym En)) as (stk & -> & Hstk & Hlf).
+        destruct (Hg (eq_sym En)) as (stk & -> & Hstk & Hnul & Hlf).
         assert (Eo : join2 (render rcs) (join2 [sep] (render (rev stk))) = out) by congruence.
-        rewrite <- Eo. exists (rev stk). split; [|split; auto using Forall_rev].
+        rewrite <- Eo. exists (rev stk). split; [|split; [|split]; auto using Forall_rev].
         rewrite join_root_render by (apply Forall_rev; auto).
         apply join_rcs_render. apply Forall_rev; auto.
       + eapply IH; eauto.
@@ -359,7 +376,7 @@ Section Root.
 
   Lemma root_path_good path out :
     root_path c f (render rcs) path = inl out ->
-    exists cs, out = render (rcs ++ cs) /\ Forall nm cs /\ link_free f dr cs = true.
+    exists cs, out = render (rcs ++ cs) /\ Forall nm cs /\ Forall nonul cs /\ link_free f dr cs = true.
   Proof.
     unfold root_path. destruct path as [|a p].
     - intros H. inversion H; subst. exists []. rewrite app_nil_r. repeat split; auto.
@@ -381,13 +398,14 @@ Section Root.
   Lemma copy_root_path_good p follow out :
     copy_root_path c f (render rcs) p follow = inl out ->
     exists cs, out = render (rcs ++ cs) /\ Forall nm cs /\
+               Forall nonul (if follow then cs else removelast cs) /\
                link_free f dr (if follow then cs else removelast cs) = true.
   Proof.
     unfold copy_root_path. rewrite join2_root.
     set (l := rev (stk_from [] p)).
     assert (Hl : Forall nm l) by (apply Forall_rev, stk_from_nm; constructor).
     destruct (bytes_eqb (render l) [sep]) eqn:E.
-    - intros H. inversion H; subst. exists []. rewrite app_nil_r. repeat split; auto. destruct follow; reflexivity.
+    - intros H. inversion H; subst. exists []. rewrite app_nil_r. destruct follow; repeat split; auto; constructor.
     - destruct follow.
       + apply root_path_good.
       + assert (Hne : l <> []).
@@ -396,13 +414,14 @@ Section Root.
         rewrite split_path_render by auto.
         destruct (root_path c f (render rcs) _) as [pp|e] eqn:Er; [|discriminate].
         intros H. assert (Eo : join2 pp b = out) by congruence. clear H.
-        destruct (root_path_good _ _ Er) as (cs & -> & Hcs & Hlf).
+        destruct (root_path_good _ _ Er) as (cs & -> & Hcs & Hcnul & Hlf).
         apply Forall_app in Hl. destruct Hl as [Hd Hb]. inversion Hb as [|? ? Hb1 _]; subst.
-        exists (cs ++ [b]). split; [|split].
+        exists (cs ++ [b]). split; [|split; [|split]].
         * assert (Hall : Forall nm (rcs ++ cs)) by (apply Forall_app; auto).
           rewrite join2_render by auto. rewrite stk_from_single by (destruct Hb1; auto).
           rewrite cstep_normal by (destruct Hb1; auto). simpl rev. rewrite rev_involutive, <- app_assoc. reflexivity.
         * apply Forall_app; auto.
+        * rewrite removelast_last. exact Hcnul.
         * rewrite removelast_last. exact Hlf.
   Qed.
 End Root.
@@ -414,8 +433,8 @@ Theorem rootpath_result_link_free_proof c f rcs dr p out :
   root_path c f (render rcs) p = inl out ->
   exists cs, out = render (rcs ++ cs) /\ forallb name_ok cs = true /\ link_free f dr cs = true.
 Proof.
-  intros Hr Hd H. apply forallb_name_ok in Hr.
-  destruct (root_path_good c f rcs dr Hr Hd p out H) as (cs & E & Hcs & Hlf).
+  intros Hr Hd H. apply forallb_name_ok in Hr. destruct Hr as [Hr1 Hr2].
+  destruct (root_path_good c f rcs dr Hr1 Hr2 Hd p out H) as (cs & E & Hcs & Hnul & Hlf).
   exists cs. repeat split; auto. apply forallb_name_ok; auto.
 Qed.
 
@@ -423,20 +442,25 @@ Theorem copy_rootpath_result_link_free_proof c f rcs dr p follow out :
   forallb name_ok rcs = true ->
   plain_dir f (c_root c) rcs = Some dr ->
   copy_root_path c f (render rcs) p follow = inl out ->
-  exists cs, out = render (rcs ++ cs) /\ forallb name_ok cs = true /\
+  exists cs, out = render (rcs ++ cs) /\ forallb lex_name_ok cs = true /\
+             forallb name_ok (if follow then cs else removelast cs) = true /\
              link_free f dr (if follow then cs else removelast cs) = true.
 Proof.
-  intros Hr Hd H. apply forallb_name_ok in Hr.
-  destruct (copy_root_path_good c f rcs dr Hr Hd p follow out H) as (cs & E & Hcs & Hlf).
-  exists cs. repeat split; auto. apply forallb_name_ok; auto.
+  intros Hr Hd H. apply forallb_name_ok in Hr. destruct Hr as [Hr1 Hr2].
+  destruct (copy_root_path_good c f rcs dr Hr1 Hr2 Hd p follow out H) as (cs & E & Hcs & Hnul & Hlf).
+  exists cs. repeat split; auto.
+  - apply forallb_lex_name_ok; auto.
+  - apply forallb_name_ok. split; auto. destruct follow; auto.
+    clear -Hcs. induction Hcs as [|x l Hx Hl IH]; [constructor|]. destruct l; [constructor|].
+    simpl. constructor; auto.
 Qed.
 
 (* a symlink-free path below a directory names the same object for every process root, with or
    without following the final component, whatever the symlink budget left *)
 Theorem link_free_resolution_rootless_proof f dr cs :
-  forallb name_ok cs = true -> link_free f dr cs = true ->
+  forallb lex_name_ok cs = true -> link_free f dr cs = true ->
   forall fuel rt1 rt2 fl1 fl2 n1 n2,
     walk fuel f rt1 dr cs fl1 n1 = walk fuel f rt2 dr cs fl2 n2.
 Proof.
-  intros H Hlf fuel rt1 rt2 fl1 fl2 n1 n2. apply walk_link_free_indep; auto. apply forallb_name_ok; auto.
+  intros H Hlf fuel rt1 rt2 fl1 fl2 n1 n2. apply walk_link_free_indep; auto. apply forallb_lex_name_ok; auto.
 Qed.
